@@ -196,7 +196,7 @@ class NB:
                 self.inputs.append(other)
         oq = self.quant(dt) if code not in ("MAXIMUM", "MINIMUM") else (X["scale"], X["zp"])
         o = self.out(code.lower(), shape, dt, oq)
-        ins = [x, other] if d(st.booleans()) or code == "SUB" and d(st.booleans()) else [other, x]
+        ins = [x, other] if d(st.booleans()) else [other, x]
         if self.tensors[ins[0]]["shape"] != shape and code in ("SUB",) and self.profile == "exact" and False:
             ins = [x, other]
         tab = {"ADD": "AddOptions", "SUB": "SubOptions", "MUL": "MulOptions", "MAXIMUM": "MaximumMinimumOptions", "MINIMUM": "MaximumMinimumOptions"}[code]
@@ -233,7 +233,7 @@ class NB:
         axis = d(st.sampled_from([len(shape) - 1, len(shape) - 1, 1 if len(shape) > 2 else len(shape) - 1, 2 if len(shape) > 3 else len(shape) - 1]))
         if other is not None and self.info(other)["shape"][:axis] + self.info(other)["shape"][axis + 1:] != shape[:axis] + shape[axis + 1:]:
             other = None
-        exact = self.profile in ("exact", "slices")  # the int8 reference kernel demands identical quantisation; C01's exact class keeps to it
+        exact = self.profile in ("exact", "slices", "elementwise")  # the int8 reference kernel demands identical quantisation; C01's exact class keeps to it
         if exact and other is not None and (self.info(other)["scale"], self.info(other)["zp"]) != (X["scale"], X["zp"]):
             other = None
         if other is None:
@@ -446,6 +446,9 @@ def network(profile="exact", max_ops=6, dtypes=("int8", "int8", "int8", "uint8",
         if profile == "slices":  # exact-class operators fed by SLICE/STRIDED_SLICE/SPLIT/CONCATENATION/PAD/RESHAPE: read and write offsets on every kind of consumer
             menu = ["sslice", "sslice", "split", "concat", "pad", "reshape", "conv", "conv", "dw", "maxpool", "avgpool_valid", "relu", "relu6", "add", "mul", "fc", "padconv", "quantize", "maximum"]
             n_ops = draw(st.integers(2, max_ops))
+        if profile == "elementwise":  # binary operators with every broadcast form in either operand position, constants and scalars, chained
+            menu = ["add", "sub", "sub", "mul", "maximum", "minimum", "add_const", "mul_const", "sub_const", "relu", "quantize", "reshape"]
+            n_ops = draw(st.integers(1, max_ops))
         if profile == "wide":
             menu += APPROX_TAIL_OPS + CPU_OPS
         for i in range(n_ops):
@@ -487,7 +490,7 @@ def network(profile="exact", max_ops=6, dtypes=("int8", "int8", "int8", "uint8",
                 if same and draw(st.booleans()):
                     other = draw(st.sampled_from(same))  # residual connection
                 cur = nb.binary(cur, kind.upper(), other)
-            elif kind in ("add_const", "mul_const"):
+            elif kind in ("add_const", "mul_const", "sub_const"):
                 cur = nb.binary(cur, kind.split("_")[0].upper(), None, const=True)
             elif kind in ("relu", "relu6"):
                 cur = nb.unary(cur, kind.upper(), same_q=True)
